@@ -54,7 +54,7 @@ RejectViol(m, f) ==
 TrConn ==
     /\ Ev.op = "Conn"
     /\ wr' = WrInit
-    /\ UNCHANGED <<script, ns, net, rd>>
+    /\ UNCHANGED <<script, ns, net, rd, tm>>
     /\ l' = l + 1 /\ viol' = ""
 
 TrSend ==
@@ -69,7 +69,7 @@ TrSend ==
                     served |-> IF isPiece THEN wr.served \cup {ReqOf(m)} ELSE wr.served,
                     log |-> <<>>]
           /\ viol' = IF asReject THEN "" ELSE v
-    /\ UNCHANGED <<script, ns, net, rd>>
+    /\ UNCHANGED <<script, ns, net, rd, tm>>
     /\ l' = l + 1
 
 TrEnd ==
@@ -80,9 +80,19 @@ TrEnd ==
     /\ UNCHANGED vars
     /\ l' = l + 1
 
+\* Time (Read.touts): the transport stayed silent until the reader's deadline expired, at stream position t.pos, inside
+\* message t.mi (0: between messages); t.body = 1: behind the complete head of a block; t.since = body bytes of that block
+\* handed over since the previous expiry / since the body began.  Wire!Tolerated is the reader's rule: a tolerated expiry
+\* changes nothing, the first other one ends the connection - exactly the messages that were complete by then are expected.
+TolT(t) == Tolerated(t.body = 1 /\ t.mi \in 1 .. Len(Ev.exp) /\ Ev.exp[t.mi].k = "piece", t.since > 0)
+RECURSIVE FirstClose(_, _)
+FirstClose(ts, i) == IF i > Len(ts) THEN -1 ELSE IF ~TolT(ts[i]) THEN ts[i].pos ELSE FirstClose(ts, i + 1)
+KeptN == LET cp == FirstClose(Ev.touts, 1) IN
+         IF cp < 0 THEN Len(Ev.exp) ELSE Cardinality({i \in 1 .. Len(Ev.exp) : Ev.ends[i] <= cp})
+
 TrRead ==
     /\ Ev.op = "Read"
-    /\ LET exp == SelectSeq([i \in 1 .. Len(Ev.exp) |-> CanonJ(Ev.exp[i])], Visible)
+    /\ LET exp == SelectSeq([i \in 1 .. KeptN |-> CanonJ(Ev.exp[i])], Visible)
            got == [i \in 1 .. Len(Ev.got) |-> CanonJ(Ev.got[i])]
        IN viol' = IF Len(got) # Len(exp) THEN "C11.roundtrip"
                   ELSE IF \E i \in 1 .. Len(exp) : NoExtId(got[i]) # NoExtId(exp[i]) THEN "C11.roundtrip"
